@@ -123,6 +123,27 @@ CHECKS = {
                     "stalled peer delayed a well-behaved client beyond the bound."),
         level_note="Bounded-time observation; stall points are sampled per kind, peers are scripted in the harness.",
     ),
+    "C16": dict(
+        pkg="c16",
+        level="fault_enumeration",
+        technique="property-based testing (rapid) over upstream lists with injected fates and session-loss histories against a policy reference model; relays count physical connections",
+        rule=("case = (1-4 upstreams of kind tcp/http/udp each with a fate works / refused / answers an error status / works but "
+              "insecure while security is required / (separate concurrent enumeration) accepts and stays silent; forward address "
+              "none/reachable/unreachable; k=1-5 concurrent local connections; session loss none / carrier cut RST / carrier cut "
+              "FIN / server restart, then 1-3 further local connections). Each working server has its own banner target. Oracle "
+              "(policy model): forward target answers when reachable, else the first upstream in list order whose fate is "
+              "'works'; no upstream after the chosen one is contacted; k concurrent logical connections use exactly one physical "
+              "connection; after a loss the next local connection succeeds on at most one new physical connection; a silent "
+              "upstream is abandoned within 75 s. non-trivial = forward configured, a loss injected, or a failing first upstream"),
+        assumptions=["abandon bound: 15 s for refused/error fates, 75 s for silent peers (the websocket dialer's own time-out is 45 s)"],
+        quick=dict(run=".", checks=40, timeout=900, shrinktime="10s"),
+        thorough=dict(run=".", checks=200, timeout=3000, shards=6),
+        design_ref="DESIGN.md 2/C16",
+        level_text=("Generated upstream lists, fates and loss histories on a real client, compared with a reference model of the "
+                    "documented policy. A green run means the chosen endpoint, the number of physical sessions and the recovery "
+                    "after a loss agreed with the model on every generated case."),
+        level_note="Bounded-time observation; fates are scripted by the harness.",
+    ),
     "C17": dict(
         pkg="c17",
         level="exploration",
